@@ -1,2 +1,23 @@
--- driver stub for C03 (replaced when the model is built)
-def main : IO Unit := pure ()
+import PyramidModel.Prelude
+import PyramidModel.ViewLookupSpec
+import PyramidModel.ViewLookupJson
+/-! Driver for C03: one JSON case per line (see `harness/c03.py: encode_case`).
+in : {"regs":[reg…], "req":request, "cls":0|1}
+out: {"out":[kind,tag?], "spec":[kind,tag?], "derived":[[order,phashText,npreds],…], "coherent":b,
+      "cands":[tag…]} -/
+open Pyr Pyr.ViewLookup Lean
+
+open Pyr.ViewLookup.Drv in
+def main : IO Unit := jsonDriver fun j => do
+  let regs ← (← (← j.getObjVal? "regs").getArr?).toList.mapM parseReg
+  let req ← parseReq (← j.getObjVal? "req")
+  let cls ← (← j.getObjVal? "cls").getNat?
+  let out := callView (registerAll regs) cls req
+  let spec := expectedView regs cls req
+  let derived := regs.map fun r =>
+    let d := derive r
+    Json.arr #[toJson d.order, toJson d.phash, toJson d.preds.length, toJson (d.holds req)]
+  return Json.mkObj [
+    ("out", outJson out), ("spec", outJson spec), ("derived", Json.arr derived.toArray),
+    ("coherent", toJson (coherentB regs)),
+    ("cands", toJson ((candidates regs cls req).map (·.tag)))]
